@@ -26,6 +26,7 @@ def C19St.ans? (o : C19St) (a : String) : Option PeerAns :=
   | ["ok", h] => h.toNat?.map fun h => .ok (o.hdr h)
   | ["soft", h] => h.toNat?.map fun h => .soft (o.hdr h) true
   | ["softbad", h] => h.toNat?.map fun h => .soft (o.hdr h) false
+  | ["softnopath", h] => h.toNat?.map fun h => .soft (o.hdr h) false
   | _ => none
 
 def renderReqs (rs : List Req) : String :=
@@ -110,11 +111,24 @@ def c19Finish (o : C19St) : Verdict :=
   | none => .ok s!"head:{",".intercalate o.kinds}"
 
 /-- single-flight line -/
+def evalC19HeadRace (ins outs : List String) : Verdict :=
+  match kvNat? ins "store", kvNat? ins "extra", kv? outs "head", kv? outs "arrive", kvNat? outs "subj", kv? outs "pending", kv? outs "stale" with
+  | some st, some extra, some head, some arrive, some subj, some pending, some stale =>
+    let top := min (st + 1 + extra) 60
+    if arrive != "ok" then .prop "c03_valid_gossip_accepted" s!"arrive={arrive}" else
+    if head != toString (st + 1) then .prop "c19_head_result" s!"head={head}" else
+    -- (the pending ranges are internal: reported in the line for diagnosis, not judged)
+    if subj != top then .prop "c19_subjective_head_is_newest" s!"Head()={subj} newest stored={top} pending={pending}" else
+    if stale != "refuse" then .prop "c03_stale_gossip_refused" s!"a stale header below the store head was accepted" else
+    .ok "headrace"
+  | _, _, _, _, _, _, _ => .bad "C19 headrace"
+
 def evalC19Flight (ins outs : List String) : Verdict :=
+  if kv? ins "kind" == some "headrace" then evalC19HeadRace ins outs else
   match kvNat? ins "n", kvNat? outs "reqs", kv? outs "results" with
   | some n, some reqs, some results =>
     let rs := results.splitOn ","
-    if (kv? ins "answer").any (·.startsWith "softbad") && rs.any (· == "44") then .prop "c19_soft_failing_head_not_adopted" results else
+    if (kv? ins "answer").any (fun a => a.startsWith "softbad" || a.startsWith "softnopath") && rs.any (· == "44") then .prop "c19_soft_failing_head_not_adopted" results else
     if rs.any (· == "panic") then .prop "c19_singleflight_shared_result" s!"a caller panicked: {results}" else
     if reqs != 1 then .prop "c19_singleflight_one_request" s!"reqs={reqs} n={n}"
     else if rs.length != n || !(rs.all (· == rs.headD "")) then .prop "c19_singleflight_shared_result" results
